@@ -489,6 +489,13 @@ class HashesProperty(DictionaryProperty):
                     "custom hash algorithm: " + hash_k,
                 )
 
+            if spec_name in spec_dict and spec_dict[spec_name] != hash_v:
+                # Two spellings of one algorithm: which value would be kept
+                # must not depend on the order of the dictionary.
+                raise ValueError(
+                    "more than one value for hash algorithm: " + spec_name,
+                )
+
             spec_dict[spec_name] = hash_v
 
         return spec_dict, has_custom
